@@ -37,7 +37,7 @@ COMPONENTS = {
     "stub": ["CAN backend (SimBus)", "can.Notifier", "threading.Condition in canopen.pdo.base (simulator primitive)", "python-can cyclic task (SimCyclicTask)"],
 }
 PROBES = ["tpdo-direction", "rpdo-direction", "config-by-save-read", "colliding-cob-ids", "sub-byte-field", "unaligned-multibyte", "callback", "rtr-sent",
-          "rtr-suppressed", "reconfigured", "frame-on-old-cob-id", "wait-returned", "wait-none", "periodic", "mode-T"]
+          "rtr-suppressed", "reconfigured", "frame-on-old-cob-id", "wait-returned", "wait-none", "periodic", "mode-T", "two-waiters"]
 
 TYPES8 = (odm.UNSIGNED8, odm.INTEGER8, odm.BOOLEAN)
 FULL = [odm.UNSIGNED8, odm.INTEGER8, odm.BOOLEAN, odm.UNSIGNED16, odm.INTEGER16, odm.UNSIGNED24, odm.INTEGER24, odm.UNSIGNED32, odm.INTEGER32,
@@ -353,22 +353,35 @@ def _mode_t(ctx, direction):
             ctx.tick(slow_callback)     # the application's callback does some work (a scheduling point)
     slow_callback = (0, 20 * US, 300 * US)[ctx.choice(3, "slowcb")]
     cons.add_callback(on_rx)
-    entries = []
+    entries = {}            # task name -> instants at which that caller entered Condition.wait
     cond = cons.receive_condition
     orig_wait = cond.wait
 
     def wait_logged(timeout=None):
-        entries.append(ctx.now)
+        entries.setdefault(ctx.current.name, []).append(ctx.now)
         return orig_wait(timeout)
     cond.wait = wait_logged
     nframes = ctx.choice(5, "nframes")
     gaps = [ctx.choice(6, "gap") for _ in range(nframes)]
     fine = [ctx.choice(200, "gapfine") * 5e-6 for _ in range(nframes)]
-    nwaits = 1 + ctx.choice(3, "nwaits")
-    timeouts = [(0.002, 0.02, 0.2)[ctx.choice(3, "timeout")] for _ in range(nwaits)]
-    # the waiter does something else between two waits, so that it may enter a
-    # wait while a frame is just being processed by the receive task
-    think = [ctx.choice(400, "think") * 5e-6 if ctx.choice(2, "thinks") else 0 for _ in range(nwaits)]
+    nwaiters = 1 + (ctx.choice(3, "nwaiters") == 0)     # a third of the runs: two caller threads wait on the same map
+    plans = []
+    for _ in range(nwaiters):
+        nwaits = 1 + ctx.choice(3, "nwaits")
+        timeouts = [(0.002, 0.02, 0.2)[ctx.choice(3, "timeout")] for _ in range(nwaits)]
+        # the waiter does something else between two waits, so that it may enter a
+        # wait while a frame is just being processed by the receive task
+        think = [ctx.choice(400, "think") * 5e-6 if ctx.choice(2, "thinks") else 0 for _ in range(nwaits)]
+        plans.append((timeouts, think))
+    if nwaiters > 1:
+        # The map has ONE is_received flag, cleared by whoever enters a wait: with several readers a
+        # reader that starts (another) wait can clear it before a reader that was just woken has looked
+        # at it.  The quantifier speaks of one waiting thread, so that is not judged.  What is judged
+        # with two readers is the schedule-independent case: both are inside their only wait before
+        # the first frame arrives, and each must be woken by it.
+        plans = [([0.2], [0]) for _ in range(nwaiters)]
+        if gaps:
+            gaps[0] = max(gaps[0], 2)
     results = []
     snaps = []
 
@@ -382,16 +395,25 @@ def _mode_t(ctx, direction):
     def prims_sleep(sec):
         ctx.sleep(sec)
 
-    def waiter():
-        for to, th in zip(timeouts, think):
-            if th:
-                ctx.sleep(th)
-            t0 = ctx.now
-            n0 = len(entries)
-            r = cons.wait_for_reception(to)
-            results.append((t0, entries[n0] if len(entries) > n0 else None, ctx.now, to, r))
+    def waiter(k):
+        name = "waiter%d" % k
+        timeouts, think = plans[k]
+
+        def body():
+            for to, th in zip(timeouts, think):
+                if th:
+                    ctx.sleep(th)
+                t0 = ctx.now
+                mine = entries.setdefault(name, [])
+                n0 = len(mine)
+                r = cons.wait_for_reception(to)
+                results.append((t0, mine[n0] if len(mine) > n0 else None, ctx.now, to, r))
+        return name, body
     ctx.spawn("producer", producer)
-    ctx.spawn("waiter", waiter)
+    for k in range(nwaiters):
+        ctx.spawn(*waiter(k))
+    if nwaiters > 1:
+        ctx.probe("two-waiters")
     ctx.run_tasks()
     for t in ctx.tasks:
         if t.exc is not None:
@@ -413,6 +435,10 @@ def _mode_t(ctx, direction):
             ok = [ts for a, ts in receptions if a >= entered and a <= t1 and ts == r]
             if not ok:
                 ctx.violation("C15/waiter-timestamp", what)
+            # woken BY the frame, not by its own time-out: once the frame has been handled the reader only needs the
+            # map's lock (callbacks: < 1 ms) and the processor (stalls: <= 2 ms per wake-up) - 50 ms is far beyond both
+            if window and t1 > window[0][0] + 50 * MS and entered + int(to * SEC) > window[0][0] + 50 * MS:
+                ctx.violation("C15/waiter-woken-late", what + " - the reader came back %.1f ms after the first frame of its wait" % ((t1 - window[0][0]) / MS))
             ctx.probe("wait-returned")
         ctx.cover((direction, "T-wait", len(window) > 0, r is not None, npre))
     # and the data the consumer holds is the last frame's
